@@ -105,3 +105,29 @@ Proof.
     apply runit_scale; [|exact H]. simpl. nra. }
   split; [exact HE|]. rewrite HE. apply runit_unit. exact H.
 Qed.
+
+(* generateNormals: the face normal computed from the two unit edge vectors is the unit right-hand
+   normal of the triangle *)
+Lemma face_n_unit_rh (verts : list RV) (t : tri) :
+  face_cross r_ops verts t <> vzero r_ops ->
+  face_n r_ops runit verts t = runit (face_cross r_ops verts t) /\
+  rdot (face_n r_ops runit verts t) (face_n r_ops runit verts t) = 1.
+Proof.
+  unfold face_cross, face_n.
+  set (p0 := vnth r_ops verts (c0 t)). set (p1 := vnth r_ops verts (c1 t)). set (p2 := vnth r_ops verts (c2 t)).
+  intro H.
+  assert (Ha : vsub r_ops p1 p0 <> vzero r_ops).
+  { intro HE. apply H. destruct p0 as [[x0 y0] z0], p1 as [[x1 y1] z1], p2 as [[x2 y2] z2].
+    unfold rh_normal, cross, vsub, vzero, vx, vy, vz in *. simpl in *.
+    pose proof (f_equal (fun v : R * R * R => fst (fst v)) HE) as E1;
+    pose proof (f_equal (fun v : R * R * R => snd (fst v)) HE) as E2;
+    pose proof (f_equal (fun v : R * R * R => snd v) HE) as E3; simpl in E1, E2, E3.
+    apply f_equal2; [apply f_equal2|]; nra. }
+  assert (Hb : vsub r_ops p2 p0 <> vzero r_ops) by (apply (rh_nonzero_edges p0 p1 p2 H)).
+  pose proof (rlinv_pos _ Ha) as Ka. pose proof (rlinv_pos _ Hb) as Kb.
+  assert (HE : runit (cross r_ops (runit (vsub r_ops p1 p0)) (runit (vsub r_ops p2 p0))) =
+               runit (rh_normal r_ops p0 p1 p2)).
+  { unfold runit at 2 3. unfold unitv. rewrite (cross_scale r_ops Rth).
+    apply runit_scale; [|exact H]. simpl. nra. }
+  split; [exact HE|]. rewrite HE. apply runit_unit. exact H.
+Qed.
